@@ -23,6 +23,21 @@
 //!      and single file), `clean_expired_shards_if_needed` with the DEFAULT grace period on a directory holding a valid shard, one
 //!      expired a day ago and one expired eight days ago: expired shards are never loaded, the valid one and the one inside the
 //!      grace period are never deleted, a shard appearing later is found after refresh.
+//!      (4) expiry whichever way a shard is NAMED: shards (unkeyed and keyed) whose expiry lies 1000 s in the past / one hour in
+//!      the future / is absent (u64::MAX), each handed to `MDBShardFile::load_all_valid` and to
+//!      `ShardFileManager::register_shards_by_path` of a manager over another (empty) directory as (i) its directory, (ii) its
+//!      absolute file path, (iii) its relative file path (current directory changed for the call; on HEAD this form fails with
+//!      an error, which is accepted and noted on stderr): an expired shard is never returned, never registered and none of its
+//!      chunks or files is answered by the manager; a shard that is not expired is returned, registered and answers.
+//!      (5) ADJACENT chunk entries whose hashes differ but share the first 64 bits: a pair inside a xorb, three in a row at the
+//!      start of a xorb, a pair at the very end of a xorb, and a pair ACROSS a xorb boundary (last chunk of one xorb / first chunk
+//!      of the next in hash order).  The shard is exported under two non-zero keys with all 8 include-flag combinations through
+//!      `export_as_keyed_shard` and `export_as_keyed_shard_streaming`: every chunk entry of the export == hmac(key, the original
+//!      entry at that position) and the tables / shard-level queries are right (full shard checker); then a `ShardFileManager`
+//!      over the export alone is queried with UNKEYED hashes - every chunk alone, repeated twice, every run to the xorb end
+//!      (+ unknown hashes), a run with a foreign hash in second place: each answer must be truthful and equal the answer of the
+//!      ORIGINAL shard (`MDBShardInfo::chunk_hash_dedup_query` on its bytes; the manager's own per-collection table keeps one
+//!      entry per 64-bit prefix, so an unkeyed manager cannot serve as reference for colliding chunks).
 //! Deterministic; seed from VERIF_SEED (default 0); C10_ONLY=A|B|C|D|F selects sections, C10_SKIP=Ca|Cb skips scenario (a)/(b) of C.
 //! Prints `WITNESS ...` and exits 1 on the first violation, `no violation found` and exits 0 otherwise.
 use std::collections::{BTreeMap, BTreeSet};
@@ -1603,6 +1618,210 @@ fn section_f(seed: u64) {
     let fresh = mg.open("[F] new_in_session_directory over the same directory", dir.path());
     check_manager(&mg, "[F] new_in_session_directory over the same directory", &fresh, &three, &three.files, &expired_files, None, &uneg);
     let _ = &p_later;
+
+    // ---- (4) expiry whichever way the shard is named
+    let npool = gen_pool(&mut rng, 12, 12, true);
+    let nneg = negatives_for(&npool);
+    let npart = |i: usize| Model {
+        files: npool.files.iter().skip(2 * i).take(2).map(|(h, f)| (*h, f.clone())).collect(),
+        xorbs: npool.xorbs.iter().skip(2 * i).take(2).cloned().collect(),
+    };
+    let nkey = rng.hash();
+    let mut case = 0usize;
+    for keyed_shard in [false, true] {
+        for (kind, expired) in [("expired 1000 s ago", true), ("valid for another hour", false), ("without expiry (u64::MAX)", false)] {
+            let model = npart(case);
+            case += 1;
+            let t = now();
+            let expiry = match kind {
+                "expired 1000 s ago" => t - 1000,
+                "valid for another hour" => t + 3600,
+                _ => u64::MAX,
+            };
+            // the shard bytes: plain or re-exported under a key, footer expiry rewritten
+            let plain = to_bytes(&model);
+            let base = if keyed_shard {
+                let mut o = Vec::new();
+                let pi = load(&plain);
+                must("[F4] export_as_keyed_shard", || pi.export_as_keyed_shard(&mut Cursor::new(&plain), &mut o, mh(&nkey), Duration::from_secs(3600), true, true, true));
+                o
+            } else {
+                plain
+            };
+            let mut info = load(&base);
+            info.metadata.shard_key_expiry = expiry;
+            let mut bytes = base[..info.metadata.footer_offset as usize].to_vec();
+            must("[F4] MDBShardFileFooter::serialize", || info.metadata.serialize(&mut bytes));
+            let hash = compute_data_hash(&bytes);
+            let fname = shard_file_name(&hash);
+            for way in ["its directory", "its absolute file path", "its relative file path (current directory = the shard's directory)"] {
+                let what = format!("[F4] {} shard {kind}, named by {way}", if keyed_shard { "keyed" } else { "unkeyed" });
+                *DETAILS.lock().unwrap() = format!(" | shard = {}", model.describe());
+                let sdir = infra("tempdir", tempfile::tempdir());
+                let mdir = infra("tempdir", tempfile::tempdir());
+                let fpath = std::path::absolute(sdir.path().join(&fname)).unwrap();
+                infra("write", std::fs::write(&fpath, &bytes));
+                let relative = way.starts_with("its relative");
+                let arg: PathBuf = if way == "its directory" { sdir.path().to_path_buf() } else if relative { PathBuf::from(&fname) } else { fpath.clone() };
+                let old_cwd = std::env::current_dir().ok();
+                if relative {
+                    infra("set_current_dir", std::env::set_current_dir(sdir.path()));
+                }
+                let loaded = catch_unwind(AssertUnwindSafe(|| MDBShardFile::load_all_valid(&arg)));
+                let mgr = mg.open(&what, mdir.path());
+                let registered = catch_unwind(AssertUnwindSafe(|| mg.rt.block_on(mgr.register_shards_by_path(&[arg.clone()]))));
+                if let (true, Some(d)) = (relative, old_cwd) {
+                    infra("set_current_dir", std::env::set_current_dir(d));
+                }
+                let loaded = loaded.unwrap_or_else(|_| witness(format!("{what}: MDBShardFile::load_all_valid panicked")));
+                let registered = registered.unwrap_or_else(|_| witness(format!("{what}: register_shards_by_path panicked")));
+                match &loaded {
+                    Ok(list) => {
+                        let has = list.iter().any(|s| s.shard_hash == hash);
+                        if expired && has {
+                            witness(format!("{what}: MDBShardFile::load_all_valid returns the expired shard (expiry {expiry}, now {t})"));
+                        }
+                        if !expired && (!has || list.len() != 1) {
+                            witness(format!("{what}: MDBShardFile::load_all_valid returns {} shards, expected exactly this one", list.len()));
+                        }
+                    },
+                    Err(e) if relative => eprintln!("note: {what}: load_all_valid fails: {e:?}"),
+                    Err(e) => witness(format!("{what}: MDBShardFile::load_all_valid fails: {e:?}")),
+                }
+                match &registered {
+                    Ok(()) => {},
+                    Err(e) if relative => eprintln!("note: {what}: register_shards_by_path fails: {e:?}"),
+                    Err(e) => witness(format!("{what}: register_shards_by_path fails: {e:?}")),
+                }
+                let is_reg = mg.rt.block_on(mgr.shard_is_registered(&hash));
+                let what = format!("{what}; manager over another (empty) directory after register_shards_by_path");
+                if expired {
+                    if is_reg {
+                        witness(format!("{what}: the expired shard (expiry {expiry}, now {t}) is registered"));
+                    }
+                    for x in model.xorbs.values() {
+                        for c in [x.chunks.first(), x.chunks.last()].into_iter().flatten() {
+                            if let Some(a) = mg.query(&what, &mgr, &[c.0]) {
+                                witness(format!("{what}: a chunk of the expired shard (expiry {expiry}, now {t}) is answered from xorb {}", hx(&hh(&a.1.cas_hash))));
+                            }
+                        }
+                    }
+                    for h in model.files.keys() {
+                        if mg.file(&what, &mgr, h).is_some() {
+                            witness(format!("{what}: file record {} of the expired shard is served", hx(h)));
+                        }
+                    }
+                } else if registered.is_ok() {
+                    if !is_reg {
+                        witness(format!("{what}: the shard is not registered although it is not expired"));
+                    }
+                    check_manager(&mg, &what, &mgr, &model, &model.files, &nneg, None, &nneg);
+                }
+            }
+        }
+    }
+    DETAILS.lock().unwrap().clear();
+
+    // ---- (5) adjacent chunk entries sharing the truncated prefix, under non-zero keys
+    {
+        let mut m = Model::default();
+        let mut rng2 = Rng(seed ^ 0xF5);
+        let (pa, pb, pc, pd) = (rng2.next() | 2, rng2.next() | 2, rng2.next() | 2, rng2.next() | 2);
+        // chunk list from first words: 0 = a fresh random hash, p = a hash whose first 64 bits are p
+        fn chunks_of(rng: &mut Rng, firsts: &[u64]) -> Vec<(H, u32)> {
+            firsts.iter().map(|w| { let h = if *w == 0 { rng.hash() } else { [*w, rng.next() & !4, rng.next(), rng.next()] }; (h, 1 + rng.below(60000) as u32) }).collect()
+        }
+        let x = |w: u64| -> H { [w, 7, 7, 7] };
+        // X1: a pair in the middle; X2: three in a row at the start; X3 / X4: adjacent in hash order, the pair straddles the boundary;
+        // X5: a pair at the very end; X6: a single chunk colliding with nothing
+        m.xorbs.insert(x(1 << 60), XorbRec { chunks: chunks_of(&mut rng2, &[0, pa, pa, 0]), on_disk: 11 });
+        m.xorbs.insert(x(2 << 60), XorbRec { chunks: chunks_of(&mut rng2, &[pb, pb, pb, 0, 0]), on_disk: 22 });
+        m.xorbs.insert(x(3 << 60), XorbRec { chunks: chunks_of(&mut rng2, &[0, 0, pc]), on_disk: 33 });
+        m.xorbs.insert(x((3 << 60) + 1), XorbRec { chunks: chunks_of(&mut rng2, &[pc, 0]), on_disk: 44 });
+        m.xorbs.insert(x(5 << 60), XorbRec { chunks: chunks_of(&mut rng2, &[0, pd, pd]), on_disk: 55 });
+        m.xorbs.insert(x(6 << 60), XorbRec { chunks: chunks_of(&mut rng2, &[0]), on_disk: 66 });
+        for i in 0..3u64 {
+            let (xh, xr) = m.xorbs.iter().nth(i as usize).map(|(h, r)| (*h, r.clone())).unwrap();
+            m.files.insert(rng2.hash(), FileRec { segs: vec![(xh, xr.chunks[0].1, 0, 1)], verif: if i % 2 == 0 { Some(vec![rng2.hash()]) } else { None }, sha: if i > 0 { Some(rng2.hash()) } else { None } });
+        }
+        *DETAILS.lock().unwrap() = format!(" | S = {} (chunk prefixes shared: chunks 1,2 of xorb #0; 0,1,2 of #1; last of #2 with first of #3; 1,2 of #4)", m.describe());
+        let neg5: Vec<H> = chunks_of(&mut rng2, &[0, 0, 0, 0, pa, pc]).into_iter().map(|c| c.0).collect();
+        let obytes = to_bytes(&m);
+        if let Err(e) = check_shard_bytes(&obytes, &m, PLAIN, &neg5) {
+            witness(format!("[F5] the unkeyed shard with adjacent prefix-colliding chunks written by serialize_from: {e}"));
+        }
+        let oinfo = load(&obytes);
+        let junk = [0x1212_1212_1212_1212u64, 3, 3, 3];
+        let mut qs: Vec<Vec<H>> = Vec::new();
+        for xr in m.xorbs.values() {
+            for j in 0..xr.chunks.len() {
+                let c = xr.chunks[j].0;
+                qs.push(vec![c]);
+                qs.push(vec![c, c]);
+                let mut run: Vec<H> = xr.chunks[j..].iter().map(|c| c.0).collect();
+                qs.push(run.clone());
+                run.push(junk);
+                run.push(junk);
+                qs.push(run);
+                if j + 1 < xr.chunks.len() {
+                    qs.push(vec![c, junk, xr.chunks[j + 1].0]);
+                    qs.push(vec![c, xr.chunks[j + 1].0]);
+                }
+            }
+        }
+        for h in &neg5 {
+            qs.push(vec![*h]);
+        }
+        let show = |a: &Answer| a.as_ref().map(|(n, e)| (*n, hx(&hh(&e.cas_hash)), e.chunk_index_start, e.chunk_index_end, e.unpacked_segment_bytes));
+        let keys5 = [rng2.hash(), rng2.hash()];
+        for key in keys5 {
+            for fl in 0..8 {
+                let (f, c, k) = flags_of(fl);
+                for streaming in [false, true] {
+                    let what = format!("[F5] shard with adjacent prefix-colliding chunks exported with {} under key {}, {}", if streaming { "export_as_keyed_shard_streaming" } else { "export_as_keyed_shard" }, hx(&key), flag_str(fl));
+                    let mut out = Vec::new();
+                    must(&what, || {
+                        if streaming {
+                            MDBShardInfo::export_as_keyed_shard_streaming(&mut Cursor::new(&obytes), &mut out, mh(&key), Duration::from_secs(3600), f, c, k)
+                        } else {
+                            oinfo.export_as_keyed_shard(&mut Cursor::new(&obytes), &mut out, mh(&key), Duration::from_secs(3600), f, c, k)
+                        }
+                    });
+                    // (a) entry by entry, before the structural check, for a precise message
+                    let ei = load(&out);
+                    let got = must(&format!("{what}: read_all_cas_blocks_full"), || ei.read_all_cas_blocks_full(&mut Cursor::new(&out)));
+                    for (gi, (xh, xr)) in got.iter().zip(m.xorbs.iter()) {
+                        for (j, (gc, oc)) in gi.chunks.iter().zip(xr.chunks.iter()).enumerate() {
+                            if hh(&gc.chunk_hash) != keyed(&oc.0, &key) {
+                                witness(format!("{what}: chunk entry {j} of xorb {} holds {} but hmac(key, original entry {}) is {}{}", hx(xh), hx(&hh(&gc.chunk_hash)), hx(&oc.0), hx(&keyed(&oc.0, &key)),
+                                    if j > 0 && hh(&gc.chunk_hash) == keyed(&xr.chunks[j - 1].0, &key) { " - it holds the keyed hash of the PREVIOUS entry, whose raw hash shares the first 64 bits" } else { "" }));
+                            }
+                        }
+                    }
+                    if let Err(e) = check_shard_bytes(&out, &m, Expect { key, files: f, cas_lookup: c, chunk_lookup: k }, &neg5) {
+                        witness(format!("{what}: {e}"));
+                    }
+                    // (b) manager over the export alone, unkeyed queries, against the original shard's own answers
+                    let dir = infra("tempdir", tempfile::tempdir());
+                    let p = dir.path().join(shard_file_name(&compute_data_hash(&out)));
+                    infra("write", std::fs::write(&p, &out));
+                    let mgr = mg.open(&what, dir.path());
+                    for q in &qs {
+                        let qm: Vec<MerkleHash> = q.iter().map(mh).collect();
+                        let ans = mg.query(&what, &mgr, q);
+                        let orig: Answer = must("[F5] chunk_hash_dedup_query on the original shard", || oinfo.chunk_hash_dedup_query(&mut Cursor::new(&obytes), &qm));
+                        if let Err(e) = validate_answer(&m, q, &ans) {
+                            witness(format!("{what}; manager over the export alone, query of {} unkeyed hashes starting with {}: {e}; the original shard answers {:?}", q.len(), hx(&q[0]), show(&orig)));
+                        }
+                        if ans != orig {
+                            witness(format!("{what}; manager over the export alone, query of {} unkeyed hashes starting with {}: answers {:?}, the original shard answers {:?}", q.len(), hx(&q[0]), show(&ans), show(&orig)));
+                        }
+                    }
+                }
+            }
+        }
+        DETAILS.lock().unwrap().clear();
+    }
 }
 
 fn main() {
